@@ -66,6 +66,7 @@ func vpCheckReleased(t *Tunnel, trs []*vpTransport, label string) {
 	}
 	_, still := Connections[t.Id]
 	vpAssert(!still, label+"-removed-from-the-connection-registry")
+	vpAssert(len(Connections) == 0, label+"-registry-holds-nothing-of-the-ended-tunnel")
 	vpAssert(vpWSGauge.v == 0 && vpLegacyGauge.v == 0, label+"-connection-gauges-restored")
 }
 
@@ -100,7 +101,7 @@ func VP_C11_ws() {
 
 //vp:property C11 C10
 //vp:set good 6 8
-//vp:bounds legacy transport pair: RDG_OUT_DATA request then RDG_IN_DATA request with the same connection id; same client behaviours as VP_C11_ws on the IN connection, plus the IN connection being dropped before its first byte
+//vp:bounds legacy transport pair: RDG_OUT_DATA request then RDG_IN_DATA request with the same connection id; same client behaviours as VP_C11_ws on the IN connection, plus the IN connection being dropped before its first byte; a duplicate RDG_IN_DATA request arriving while the tunnel is live (before its first or second packet); with the client dropping IN: optionally a host chunk in flight to a client that stopped reading OUT (the relay goroutine is blocked in that write when the tunnel ends)
 //vp:reach ended
 func VP_C11_legacy() {
 	vpResetHandlers()
@@ -110,12 +111,30 @@ func VP_C11_legacy() {
 	in := vpScript(good, ending)
 	// the IN connection may be dropped right after it was accepted, before its first byte
 	in.drainFails = vpBool("in-dropped-before-first-byte")
-	vpNextTransports = []*vpTransport{out, in}
+	dup := &vpTransport{}
+	vpNextTransports = []*vpTransport{out, in, dup}
 	g := &Gateway{}
 	id := vpUser()
 	mk := func(method string) *http.Request {
 		r := &http.Request{Method: method, Header: http.Header{"Rdg-Connection-Id": {"conn-1"}}}
 		return identity.AddToRequestCtx(id, r)
+	}
+	// the host may have a chunk in flight while the client has stopped reading its OUT connection and
+	// then drops the IN connection: the relay goroutine is blocked in a client write when the tunnel ends
+	if ending == 0 && vpBool("client-stopped-reading-out") {
+		vpBackendChunk = []byte{7}
+		out.clientGone = true
+		in.yieldOnRead = true
+	}
+	// a retry of the RDG_IN_DATA request (same connection id) may arrive while the tunnel is live: it is
+	// served at the moment the first IN handler waits for its dupAt-th packet
+	dupAt := vpIntRange("duplicate-in-request-at", -1, 1)
+	inner := in.gen
+	in.gen = func(i int) []byte {
+		if i == dupAt {
+			g.HandleGatewayProtocol(&vpHTTPW{hdr: http.Header{}}, mk(MethodRDGIN))
+		}
+		return inner(i)
 	}
 	g.HandleGatewayProtocol(&vpHTTPW{hdr: http.Header{}}, mk(MethodRDGOUT))
 	vpAssert(out.accepts == 1 && len(vpCache) == 1, "legacy-out-channel-accepted-and-remembered")
@@ -128,7 +147,7 @@ func VP_C11_legacy() {
 	}
 	vpAssert(x.transportIn != nil && x.transportOut != nil, "both-legacy-channels-attached-to-one-tunnel")
 	vpObserve("dials", uint64(len(vpDialLog)))
-	vpCheckReleased(x, []*vpTransport{in, out}, "legacy")
+	vpCheckReleased(x, vpMadeTransports, "legacy") // OUT, IN and the connection of a duplicate IN request
 	vpRunTasks()
 	vpAssert(true, "legacy-relay-goroutine-terminated")
 }
